@@ -576,3 +576,28 @@ Definition typed_read_cell (k : carrier) (t : ctype) (b : bytes) : dres (option 
   | None => Err DE_RawCqlBytesRead
   | Some (ob, _) => rbind (typed_read k t ob) (fun v => Ok (embed k t v))
   end.
+
+(* ====================================================================================== *)
+(* 5. Carriers that read back exactly what was written                                      *)
+(* ====================================================================================== *)
+(* Two kinds of carrier do NOT return the original value, by their nature and not by a defect:
+   CqlValue (a short tuple comes back padded: [pad]) and an Option around something that can
+   itself be null (Option<Option<T>>: Some(None) is written as null and reads back as None).
+   [plain] excludes exactly those (and MaybeUnset, which has no decoder). *)
+Fixpoint nullable (k : carrier) : bool :=
+  match k with
+  | KOption _ => true
+  | KPtr k' | KMaybeEmpty k' | KMaybeUnset k' => nullable k'
+  | _ => false
+  end.
+
+Fixpoint plain (k : carrier) : bool :=
+  match k with
+  | KLeaf _ => true
+  | KDyn | KMaybeUnset _ => false
+  | KOption k' => negb (nullable k') && plain k'
+  | KMaybeEmpty k' => emptiable k' && plain k'
+  | KPtr k' | KVec k' | KSetC k' => plain k'
+  | KMapC a b => plain a && plain b
+  | KTuple ks => forallb plain ks
+  end.
